@@ -26,6 +26,7 @@ func cfg(kind string) vcommon.Cfg {
 }
 
 type run struct {
+	prof  *run // the same source with a profiler attached (set on the default run)
 	out   vcommon.Outcome
 	trace string
 	err   string
@@ -100,6 +101,7 @@ func transparent(src string, c *vcommon.Ctx) (*vcommon.Failure, run) {
 			return vcommon.Failf("transparency/stderr", "stderr differs between default and %s\nprogram:\n%s\ndefault:\n%s\nother:\n%s", other.name, src, clip(def.err), clip(other.r.err)), def
 		}
 	}
+	def.prof = &prof
 	if prof.rt.Prof != nil && prof.rt.Prof.Starts != prof.rt.Prof.Stops {
 		return vcommon.Failf("profiler/unbalanced", "profiler Start/stop unbalanced: %d starts, %d stops\n%s", prof.rt.Prof.Starts, prof.rt.Prof.Stops, src), def
 	}
@@ -149,7 +151,7 @@ type Loop struct {
 }
 
 var elimWraps = []string{"if-then", "if-else", "cond", "cond-else", "cond-body", "progn", "let", "let*", "flet", "labels", "or", "dotimes"}
-var callKinds = []string{"direct", "funcall", "funcall-sym", "apply", "apply2", "thread-first", "thread-last"}
+var callKinds = []string{"direct", "funcall", "funcall-sym", "apply", "apply2", "thread-first", "thread-last", "head-self", "head-via"}
 
 func genLoop(blocked bool) *rapid.Generator[Loop] {
 	return rapid.Custom(func(t *rapid.T) Loop {
@@ -245,6 +247,14 @@ func (l Loop) source(n int) string {
 			call = fmt.Sprintf("(thread-first %s (%s %s))", A, next, B)
 		case "thread-last":
 			call = fmt.Sprintf("(thread-last %s (%s %s))", B, next, A)
+		case "head-self":
+			// the operator position is itself a call into the family: it is
+			// evaluated like an argument (never a tail call), and the call it
+			// yields is in tail position.  (fI -1 0) answers the next function.
+			call = fmt.Sprintf("((f%d -1 0) %s %s)", i, A, B)
+		case "head-via":
+			fmt.Fprintf(&b, "(defun pick%d (n) (probe 'pk n) (f%d -1 0))\n", i, i)
+			call = fmt.Sprintf("((pick%d n) %s %s)", i, A, B)
 		}
 		if l.Blocked == "macro-expansion" && l.BlockAt == i {
 			// the next function is called DURING the expansion of a macro
@@ -282,6 +292,9 @@ func (l Loop) source(n int) string {
 			case 4:
 				extra = "(cond ((> n 0) (helper n))) "
 			}
+		}
+		if strings.HasPrefix(l.Calls[i], "head-") {
+			body = fmt.Sprintf("(if (= n -1) %s %s)", next, body)
 		}
 		fmt.Fprintf(&b, "(defun f%d (n acc) (probe 'h n) %s%s)\n", i, extra, body)
 	}
@@ -344,6 +357,10 @@ func checkLoop(l Loop, c *vcommon.Ctx) *vcommon.Failure {
 		// (b) constant stack: the maximum observed frame count does not grow
 		if r2.maxH != r1.maxH {
 			return vcommon.Failf("stack/grows", "tail loop stack height grows with the iteration count: max %d frames at n=%d, %d at n=%d\n%s", r1.maxH, n1, r2.maxH, n2, s2)
+		}
+		// an attached profiler is the third configuration: elimination stays on
+		if p1, p2 := r1.prof, r2.prof; p1 != nil && p2 != nil && !limitHit(p1.out) && !limitHit(p2.out) && p2.maxH != p1.maxH {
+			return vcommon.Failf("stack/grows-with-profiler", "with a profiler attached the tail loop's stack height grows with the iteration count: max %d frames at n=%d, %d at n=%d\n%s", p1.maxH, n1, p2.maxH, n2, s2)
 		}
 	case "handler-bind", "ignore-errors", "load-string", "macro-expansion":
 		// (c) never collapsed: at least one frame per extra turn of the cycle
